@@ -134,6 +134,15 @@ def one_definition(ctx, facts, cfg):
                         is_dec = d_ is not None and (d_.output or '').startswith('std::result::Result<bool, Error>') and tuple(lf[2]) == pn_
                 if is_dec and tuple(inner[2]) == (('local', 'original_count'), ('local', 'recovery_count')):
                     okd = True
+            t0 = core.fn_exits(ds, delegate=False)
+            v = hcanon(t0[0][0], {}) if len(t0) == 1 else ('?',)
+            if not okd and v[0] == 'call' and isinstance(v[1], str) and tuple(v[2]) == (('local', 'original_count'), ('local', 'recovery_count')):
+                # `is_supported(o, r)`, a private predicate on which the decision fails exactly: decision(o, r).is_ok() under another name
+                g = facts.fns.get(v[1])
+                decs = [q for q, d_ in facts.fns.items() if (d_.output or '').startswith('std::result::Result<bool, Error>') and d_.file == ds.file and d_.kind != 'Closure']
+                if g is not None and g.output == 'bool' and not g.reachable and len(decs) == 1:
+                    from . import c09
+                    okd = c09.decision_fails_exactly_on(facts, decs[0], {v[1]}) == v[1]
         if okd:
             ctx.ok(R, 'DefaultRate::supports=decision.is_ok()@%s' % cfg, None)
         else:
